@@ -1096,6 +1096,7 @@ func c02Routing(c *Ctx, F *ssa.Function, getCall *ssa.Call) {
 
 	// native identity check: module callee receiving trustedIdentities and the certificate chain
 	var idCall, revCall *ssa.Call
+	tiParam := w.paramFedBy(F, ".TrustedIdentities")
 	for _, ci := range allCalls(F) {
 		call, ok := ci.(*ssa.Call)
 		if !ok {
@@ -1108,7 +1109,7 @@ func c02Routing(c *Ctx, F *ssa.Function, getCall *ssa.Call) {
 		hasTI, hasChain := false, false
 		for _, a := range call.Call.Args {
 			d := desc(a)
-			if d == "param:trustedIdentities" {
+			if d == tiParam {
 				hasTI = true
 			}
 			if strings.HasSuffix(d, ".SignerInfo.CertificateChain") {
